@@ -196,10 +196,10 @@ def containsJustifiedQrc (d : Def) (just : List Core) (round : Nat) : Nat × Boo
   if qrc.length < d.quorum then (0, false)
   else if qrc.all (fun rc => rc.pr == 0 && rc.pv == 0) then (0, true)
   else
-    let (pr, pv, ok) := getSingleJustifiedPrPv d just
-    if !ok then (0, false)
-    else if qrc.any (fun rc => decide (rc.pr > pr)) then (0, false)
-    else (pv, qrc.any (fun rc => rc.pr == pr && rc.pv == pv))
+    let r := getSingleJustifiedPrPv d just
+    if !r.2.2 then (0, false)
+    else if qrc.any (fun rc => decide (rc.pr > r.1)) then (0, false)
+    else (r.2.1, qrc.any (fun rc => rc.pr == r.1 && rc.pv == r.2.1))
 
 /-- `isJustifiedPrePrepare`. -/
 def isJustifiedPrePrepare (d : Def) (m : Msg) (compareFailureRound : Nat) : Bool :=
@@ -207,10 +207,10 @@ def isJustifiedPrePrepare (d : Def) (m : Msg) (compareFailureRound : Nat) : Bool
   else if m.core.value = 0 then false
   else if m.core.round = 1 ∨ m.core.round = compareFailureRound + 1 then true
   else
-    let (pv, ok) := containsJustifiedQrc d m.just m.core.round
-    if !ok then false
-    else if pv = 0 then true
-    else m.core.value == pv
+    let r := containsJustifiedQrc d m.just m.core.round
+    if !r.2 then false
+    else if r.1 = 0 then true
+    else m.core.value == r.1
 
 /-- `isJustified`: `none` = panic "bug: invalid message type". -/
 def isJustified (d : Def) (m : Msg) (compareFailureRound : Nat) : Option Bool :=
@@ -261,8 +261,9 @@ def getPrepareQuorums (d : Def) (pqPerm : Nat) (all : List Core) : List (List Co
 
 /-- `getJustifiedQrc`. -/
 def getJustifiedQrc (d : Def) (pqPerm : Nat) (all : List Core) (round : Nat) : Option (List Core) :=
-  let (qn, okn) := quorumNullPrepared d all round
-  if okn then some qn
+  -- `quorumNullPrepared`
+  let qn := filterMsgs all tRoundChange round none (some 0) (some 0)
+  if qn.length ≥ d.quorum then some qn
   else
     let roundChanges := filterRoundChange all round
     let rec tryQ : List (List Core) → Option (List Core)
@@ -358,92 +359,132 @@ def bcastOwnPrePrepare (s : NodeState) (just : List Core) : NodeState × List Ou
   else if s.inputValue = 0 then ({ s with ppjCache := some just }, [])
   else (s, [bcastMsg s tPrePrepare s.inputValue just])
 
+/-- (highest round, count) of DECIDED resends triggered by `src` so far. -/
+def resendOf (s : NodeState) (src : Nat) : Nat × Nat :=
+  match s.resends.find? (fun e => e.1 == src) with
+  | some e => e.2
+  | none => (0, 0)
+
 /-- `allowDecidedResend`. -/
 def allowDecidedResend (s : NodeState) (src round : Nat) : NodeState × Bool :=
-  let (r, c) := match s.resends.find? (fun e => e.1 == src) with
-                | some e => e.2
-                | none => (0, 0)
-  if round ≤ r ∨ c ≥ maxDecidedResends then (s, false)
-  else ({ s with resends := upsert s.resends src (round, c + 1) }, true)
+  let rc := resendOf s src
+  if round ≤ rc.1 ∨ rc.2 ≥ maxDecidedResends then (s, false)
+  else ({ s with resends := upsert s.resends src (round, rc.2 + 1) }, true)
 
 /-- restart the round timer: `stopTimer(); timerChan, stopTimer = d.NewTimer(round)`. -/
 def restartTimer (s : NodeState) : NodeState × List Out :=
   ({ s with timerOn := true }, [.stopTimer, .newTimer s.round])
 
-def stepCore (d : Def) (o : Oracle) (s : NodeState) (e : Event) : NodeState × List Out :=
-  match e with
-  | .start =>
-    -- Algorithm 1:11 (round = 1)
-    let (s1, o1) := if d.leader s.round = s.proc then bcastOwnPrePrepare s [] else (s, [])
-    ({ s1 with timerOn := true }, o1 ++ [.newTimer s1.round])
-  | .input v =>
-    if s.inputDone then (s, [])   -- channel is nil: the send would never be received
-    else if v = 0 then ({ s with dead := true, inputValue := 0 }, [.exit "zero input value not supported"])
-    else
-      let s1 := { s with inputValue := v, inputDone := true }
-      match s.ppjCache with
-      | some j => (s1, [bcastMsg s1 tPrePrepare v j])
-      | none => (s1, [])
+/-- `UponJustifiedPrePrepare` branch (after the dedup check recorded the rule in `s1`).
+`stopTimer(); timerChan, stopTimer = d.NewTimer(round)` is the pair `[.stopTimer, .newTimer _]`. -/
+def onPrePrepare (s1 : NodeState) (m : Msg) (cmp : CmpOut) : NodeState × List Out :=
+  let c2 := changeRound s1 m.core.round uJustifiedPrePrepare
+  -- re-record after the round-change wipe to prevent equivocation; restart the timer
+  let s4 : NodeState :=
+    { c2.1 with
+        dedup := if c2.1.dedup.contains (uJustifiedPrePrepare, m.core.round) then c2.1.dedup
+                 else (uJustifiedPrePrepare, m.core.round) :: c2.1.dedup,
+        timerOn := true }
+  let o4 : List Out := [.stopTimer, .newTimer s4.round]
+  match cmp with
+  | .ok => (s4, c2.2 ++ o4 ++ [bcastMsg s4 tPrepare m.core.value []])
+  | .fail => ({ s4 with compareFailureRound := m.core.round }, c2.2 ++ o4)
   | .timeout =>
-    if !s.timerOn then (s, []) else   -- timerChan = nil after a decision
-    let (s1, o1) := changeRound s (s.round + 1) uRoundTimeout
-    let (s2, o2) := restartTimer s1
-    (s2, o1 ++ o2 ++ [bcastRoundChange s2])
-  | .recv m cmp =>
-    if !s.qCommit.isEmpty then
-      if m.core.src ≠ s.proc ∧ m.core.typ = tRoundChange then
-        let (s1, ok) := allowDecidedResend s m.core.src m.core.round
-        if ok then (s1, [bcastMsg s1 tDecided s1.qCommitValue s1.qCommit]) else (s1, [])
-      else (s, [])
-    else
-    match isJustified d m s.compareFailureRound with
-    | none => ({ s with dead := true }, [.bug "invalid message type"])
-    | some false => (s, [.unjust m.core])
-    | some true =>
-    let s0 := { s with buffer := bufferMsg d.fifo s.buffer m }
-    match classify d o s0.round s0.proc s0.buffer m with
-    | none => ({ s0 with dead := true }, [.bug "invalid type"])
-    | some (rule, just) =>
+    let c5 := changeRound s4 (s4.round + 1) uRoundTimeout
+    let s6 : NodeState := { c5.1 with timerOn := true }
+    (s6, c2.2 ++ o4 ++ c5.2 ++ [.stopTimer, .newTimer s6.round] ++ [bcastRoundChange s6])
+
+/-- `UponQuorumPrepares` branch. -/
+def onQuorumPrepares (s1 : NodeState) (m : Msg) (just : List Core) : NodeState × List Out :=
+  let s2 : NodeState :=
+    { s1 with preparedRound := s1.round, preparedValue := m.core.value, preparedJust := just }
+  (s2, [bcastMsg s2 tCommit s2.preparedValue []])
+
+/-- `UponQuorumCommits` / `UponJustifiedDecided` branch. -/
+def onDecide (s1 : NodeState) (m : Msg) (rule : Nat) (just : List Core) : NodeState × List Out :=
+  let c2 := changeRound s1 m.core.round rule
+  let s3 : NodeState := { c2.1 with qCommit := just, qCommitValue := m.core.value, timerOn := false }
+  (s3, c2.2 ++ [.stopTimer, .decide m.core.value m.core.round just])
+
+/-- `UponFPlus1RoundChanges` branch. -/
+def onFPlus1 (d : Def) (s1 : NodeState) (just : List Core) : NodeState × List Out :=
+  match nextMinRound d just s1.round with
+  | none => (s1, [.bug "nextMinRound"])
+  | some nr =>
+    let c2 := changeRound s1 nr uFPlus1RoundChanges
+    let s3 : NodeState := { c2.1 with timerOn := true }
+    (s3, c2.2 ++ [.stopTimer, .newTimer s3.round] ++ [bcastRoundChange s3])
+
+/-- `UponQuorumRoundChanges` branch. -/
+def onQuorumRoundChanges (d : Def) (s1 : NodeState) (just : List Core) : NodeState × List Out :=
+  let r := getSingleJustifiedPrPv d just
+  if r.2.2 = true ∧ s1.compareFailureRound ≠ r.1 then
+    (s1, [bcastMsg s1 tPrePrepare r.2.1 just])
+  else bcastOwnPrePrepare s1 just
+
+/-- message handling once consensus is decided: rate-limited DECIDED resend. -/
+def onRecvDecided (s : NodeState) (m : Msg) : NodeState × List Out :=
+  if m.core.src ≠ s.proc ∧ m.core.typ = tRoundChange then
+    let r := allowDecidedResend s m.core.src m.core.round
+    if r.2 then (r.1, [bcastMsg r.1 tDecided r.1.qCommitValue r.1.qCommit]) else (r.1, [])
+  else (s, [])
+
+/-- dispatch on the classified rule (`s1` already carries the dedup record). -/
+def onRule (d : Def) (s1 : NodeState) (m : Msg) (cmp : CmpOut) (rule : Nat) (just : List Core) :
+    NodeState × List Out :=
+  if rule = uJustifiedPrePrepare then onPrePrepare s1 m cmp
+  else if rule = uQuorumPrepares then onQuorumPrepares s1 m just
+  else if rule = uQuorumCommits ∨ rule = uJustifiedDecided then onDecide s1 m rule just
+  else if rule = uFPlus1RoundChanges then onFPlus1 d s1 just
+  else if rule = uQuorumRoundChanges then onQuorumRoundChanges d s1 just
+  else if rule = uUnjustQuorumRoundChanges then (s1, [])
+  else (s1, [.bug "invalid rule"])
+
+/-- a justified message: buffer, classify, dedup, dispatch. -/
+def onRecvJustified (d : Def) (o : Oracle) (s : NodeState) (m : Msg) (cmp : CmpOut) : NodeState × List Out :=
+  let s0 := { s with buffer := bufferMsg d.fifo s.buffer m }
+  match classify d o s0.round s0.proc s0.buffer m with
+  | none => (s0, [.bug "invalid type"])
+  | some (rule, just) =>
     if rule = uNothing then (s0, [])
     else if s0.dedup.contains (rule, m.core.round) then (s0, [])
     else
-    let s1 := { s0 with dedup := (rule, m.core.round) :: s0.dedup }
-    let oRule := [Out.rule rule s1.round]
-    if rule = uJustifiedPrePrepare then
-      let (s2, o2) := changeRound s1 m.core.round rule
-      let s3 := { s2 with dedup := if s2.dedup.contains (rule, m.core.round) then s2.dedup
-                                   else (rule, m.core.round) :: s2.dedup }
-      let (s4, o4) := restartTimer s3
-      match cmp with
-      | .ok => (s4, oRule ++ o2 ++ o4 ++ [bcastMsg s4 tPrepare m.core.value []])
-      | .fail => ({ s4 with compareFailureRound := m.core.round }, oRule ++ o2 ++ o4)
-      | .timeout =>
-        let (s5, o5) := changeRound s4 (s4.round + 1) uRoundTimeout
-        let (s6, o6) := restartTimer s5
-        (s6, oRule ++ o2 ++ o4 ++ o5 ++ o6 ++ [bcastRoundChange s6])
-    else if rule = uQuorumPrepares then
-      let s2 := { s1 with preparedRound := s1.round, preparedValue := m.core.value, preparedJust := just }
-      (s2, oRule ++ [bcastMsg s2 tCommit s2.preparedValue []])
-    else if rule = uQuorumCommits ∨ rule = uJustifiedDecided then
-      let (s2, o2) := changeRound s1 m.core.round rule
-      let s3 := { s2 with qCommit := just, qCommitValue := m.core.value, timerOn := false }
-      (s3, oRule ++ o2 ++ [.stopTimer, .decide m.core.value m.core.round just])
-    else if rule = uFPlus1RoundChanges then
-      match nextMinRound d just s1.round with
-      | none => ({ s1 with dead := true }, oRule ++ [.bug "nextMinRound"])
-      | some nr =>
-        let (s2, o2) := changeRound s1 nr rule
-        let (s3, o3) := restartTimer s2
-        (s3, oRule ++ o2 ++ o3 ++ [bcastRoundChange s3])
-    else if rule = uQuorumRoundChanges then
-      let (pr, pv, ok) := getSingleJustifiedPrPv d just
-      if ok ∧ s1.compareFailureRound ≠ pr then
-        (s1, oRule ++ [bcastMsg s1 tPrePrepare pv just])
-      else
-        let (s2, o2) := bcastOwnPrePrepare s1 just
-        (s2, oRule ++ o2)
-    else if rule = uUnjustQuorumRoundChanges then (s1, oRule)
-    else ({ s1 with dead := true }, oRule ++ [.bug "invalid rule"])
+      let s1 := { s0 with dedup := (rule, m.core.round) :: s0.dedup }
+      let r := onRule d s1 m cmp rule just
+      (r.1, Out.rule rule s1.round :: r.2)
+
+def onTimeout (s : NodeState) : NodeState × List Out :=
+  if !s.timerOn then (s, []) else   -- timerChan = nil after a decision
+  let c1 := changeRound s (s.round + 1) uRoundTimeout
+  let s2 : NodeState := { c1.1 with timerOn := true }
+  (s2, c1.2 ++ [.stopTimer, .newTimer s2.round] ++ [bcastRoundChange s2])
+
+def onInput (s : NodeState) (v : Nat) : NodeState × List Out :=
+  if s.inputDone then (s, [])   -- channel is nil: the send would never be received
+  else if v = 0 then ({ s with dead := true, inputValue := 0 }, [.exit "zero input value not supported"])
+  else
+    let s1 := { s with inputValue := v, inputDone := true }
+    (s1, match s.ppjCache with
+         | some j => [bcastMsg s1 tPrePrepare v j]
+         | none => [])
+
+def onStart (d : Def) (s : NodeState) : NodeState × List Out :=
+  -- Algorithm 1:11 (round = 1)
+  let r := if d.leader s.round = s.proc then bcastOwnPrePrepare s [] else (s, [])
+  ({ r.1 with timerOn := true }, r.2 ++ [.newTimer r.1.round])
+
+def stepCore (d : Def) (o : Oracle) (s : NodeState) (e : Event) : NodeState × List Out :=
+  match e with
+  | .start => onStart d s
+  | .input v => onInput s v
+  | .timeout => onTimeout s
+  | .recv m cmp =>
+    if !s.qCommit.isEmpty then onRecvDecided s m
+    else
+    match isJustified d m s.compareFailureRound with
+    | none => (s, [.bug "invalid message type"])
+    | some false => (s, [.unjust m.core])
+    | some true => onRecvJustified d o s m cmp
 
 def Out.isBug : Out → Bool
   | .bug _ => true
